@@ -57,6 +57,9 @@ class Init(Contract):
                 p = p[:-4]
                 args[p] = VInt(z3.Int('arg_' + p))
                 st.assume(args[p].t >= 1)
+            elif p.endswith(':bool'):
+                p = p[:-5]
+                args[p] = VBool(z3.Bool('arg_' + p))
             else:
                 args[p] = VElem(z3.Const('arg_' + p, sym.Elem))
         self.kwvals = {k: VElem(z3.Const('kw_' + k, sym.Elem)) for k in self.kw}
@@ -77,7 +80,7 @@ class Init(Contract):
             st.assume(z3.Distinct(*[u.t for u in pos]))
         self.pre_args = dict(args, self=selfv)
         if self.positional:
-            return selfv, pos + [args[p[:-4] if p.endswith(':int') else p] for p in self.params], {}
+            return selfv, pos + [args[p.split(':')[0]] for p in self.params], {}
         return selfv, pos, dict(args)
 
     def globals(self):
@@ -116,7 +119,20 @@ class Init(Contract):
             g = I.st.ghost
             g['callbacks'] = VTuple(g['callbacks'].items + [args[0]])
             return NONE
-        return {'Stream.__init__': base_init, 'DaskStream.__init__': base_init, 'str.pop': kw_pop,
+
+        def kw_update(I, recv, args, kwargs):
+            # kwargs.update(name=value) on the constructor's own **kwargs: same as kwargs['name'] = value
+            for k, v in kwargs.items():
+                if k != '**':
+                    I.set_item(recv, VStr(k), v)
+            for a in args:
+                if isinstance(a, VObj) and I.st.heap[a.loc].cls == '__strdict__':
+                    for k, v in I.st.heap[a.loc].fields.items():
+                        I.set_item(recv, VStr(k), v)
+                else:
+                    raise Unsupported('kwargs.update with this argument')
+            return NONE
+        return {'Stream.__init__': base_init, 'DaskStream.__init__': base_init, 'Source.__init__': base_init, 'str.pop': kw_pop, 'str.update': kw_update,
                 'IOLoop.add_callback': add_callback}
 
     def spec_funcs(self):
@@ -130,6 +146,18 @@ class Init(Contract):
         def recorded(I, name):
             hits = [it.items[1] for it in I.st.ghost['recorded'].items if it.items[0].s == name.s]
             return hits[0] if len(hits) == 1 else VStr('--%d calls of %s--' % (len(hits), name.s))
+
+        def recorded_all(I, name):
+            return VTuple([it.items[1] for it in I.st.ghost['recorded'].items if it.items[0].s == name.s])
+
+        def implies_(I, a, b):
+            return VBool(z3.Implies(I.truth(a), I.truth(b)))
+
+        def call_attr(I, recv, name):
+            return VElem(sym.user_func('attr:' + name.s, 1)(_elem(I, recv)))
+
+        def truthy(I, v):
+            return VBool(I.truth(v))
 
         def call_m(I, name, recv, *args, **kwargs):
             return herbrand(I, name.s, recv, list(args), kwargs)
@@ -169,8 +197,12 @@ class Init(Contract):
         def maxlen(I, v):
             c = I.st.list_cell(v.loc)
             return VInt(c.maxlen) if c.maxlen is not None else NONE
-        return {'call_default': call_default, 'call': call_, 'call_m': call_m, 'recorded': recorded, 'base_arg': base_arg, 'base_kw_names': base_kw_names, 'is_cb': is_cb,
-                'empty': empty, 'maxlen': maxlen}
+        extra = {}
+        if self.method == '_create_task':
+            # attribute chains on opaque objects (self.loop.asyncio_loop.create_task) as Herbrand terms
+            extra['attr_default'] = lambda I, v, name: VElem(sym.user_func('attr:' + name, 1)(_elem(I, v)))
+        return dict(extra, **{'call_default': call_default, 'call': call_, 'call_m': call_m, 'call_attr': call_attr, 'truthy': truthy, 'recorded': recorded, 'recorded_all': recorded_all, 'implies': implies_, 'base_arg': base_arg, 'base_kw_names': base_kw_names, 'is_cb': is_cb,
+                'empty': empty, 'maxlen': maxlen})
 
     def clauses(self):
         cl = []
@@ -242,6 +274,16 @@ ALL = [
     mk('Streaming', ['func'], {}, ['C12', 'C06'], kw_=['start', 'returns_state', 'example', 'stream_type'], positional_=True,
        method_='accumulate_partitions', file_='streamz/collection.py', self_fields_=['example', '_stream_type'], self_refs_=['stream'],
        extra_=["recorded('accumulate') == call_m('accumulate', self.stream, func, start=kw_start, returns_state=kw_returns_state, **'__kwargs__')"]),
+    # from_textfile: with from_end=True the reader starts at the end of the file however the file was handed over (path or object)
+    mk('from_textfile', ['f', 'poll_interval', 'delimiter', 'from_end:bool'],
+       {'file': 'f', 'delimiter': 'delimiter', 'poll_interval': 'poll_interval'}, ['C17', 'C18'], file_='streamz/sources.py',
+       extra_=["implies(from_end, recorded('seek') == call_m('seek', f, 0, 2))", "implies(not from_end, len(recorded_all('seek')) == 0)",
+               "self.buffer == ''"]),
+    # map_async: every task the node creates runs on the node's own loop (C19: one loop per pipeline), futures are passed through
+    mk('map_async', ['coro'], {}, ['C19', 'C02'], method_='_create_task', self_fields_=['loop'], positional_=True, tag='_create_task',
+       extra_=["implies(truthy(call('gen.is_future', coro)), result is coro)",
+               "implies(not truthy(call('gen.is_future', coro)), "
+               "result == call_m('apply', call_attr(call_attr(self.loop, 'asyncio_loop'), 'create_task'), coro))"]),
     mk('combine_latest', [], {'_initial_emit_on': 'None'}, ['C01', 'C15'], varargs_=2, tag='_emit_on_not_given',
        extra_=['list(self.emit_on) == [up0, up1]', 'len(self.last) == 2 and len(self.metadata) == 2',
                'up0 in self.missing and up1 in self.missing']),
